@@ -247,7 +247,14 @@ func streamSig(c *ctx) {
 			// the same private key with d written one octet longer (a leading 0x00, as signed-integer serialisers do) and,
 			// when it has one, without its leading zero octets: the same key
 			if dBytes, err := k.GetBytes(iana.EC2KeyParameterD); err == nil {
-				for vn, dv := range map[string][]byte{"d with a leading zero octet": append([]byte{0}, dBytes...), "d without its leading zero octets": stripZeros(dBytes)} {
+				padTo := func(n int) []byte {
+					if n < len(dBytes) {
+						return dBytes
+					}
+					return append(make([]byte, n-len(dBytes)), dBytes...)
+				}
+				for vn, dv := range map[string][]byte{"d with a leading zero octet": append([]byte{0}, dBytes...), "d without its leading zero octets": stripZeros(dBytes),
+					"d padded to the curve size": padTo(a.size), "d padded to one octet more than the curve size": padTo(a.size + 1), "d padded to 66 octets": padTo(66)} {
 					if len(dv) > 66 || len(dv) == 0 || bytes.Equal(dv, dBytes) {
 						continue
 					}
